@@ -272,6 +272,20 @@ func c08Contexts() []c08Ctx {
 		{"cond-right", one(func(e *rt.Node) *rt.Node { return rt.Assign("=", Id("x"), rt.Bin("==", Id("c"), e)) })},
 		{"in-left", one(func(e *rt.Node) *rt.Node { return rt.Assign("=", Id("x"), rt.In(e, Id("l"))) })},
 		{"in-right", one(func(e *rt.Node) *rt.Node { return rt.Assign("=", Id("x"), rt.In(I(1), e)) })},
+		// behind a logical operator whose left operand is a literal that decides it; inside the operand of `in` and of a for-in header at depth
+		{"cond-false-and", one(func(e *rt.Node) *rt.Node { return rt.If(rt.Bin("&&", rt.Bool(false), e), rt.Block()) })},
+		{"assign-true-or", one(func(e *rt.Node) *rt.Node { return rt.Assign("=", Id("x"), rt.Bin("||", rt.Bool(true), e)) })},
+		{"arg-false-and", one(func(e *rt.Node) *rt.Node { return rt.Call("p", rt.Bin("&&", rt.Bool(false), rt.Bin("||", rt.Bool(true), e))) })},
+		{"cond-nil-and", one(func(e *rt.Node) *rt.Node { return rt.If(rt.Bin("&&", rt.Bin("==", I(1), I(2)), e), rt.Block()) })},
+		{"in-right-index", one(func(e *rt.Node) *rt.Node { return rt.Assign("=", Id("x"), rt.In(I(1), rt.Index("a", e))) })},
+		{"in-right-index-2", one(func(e *rt.Node) *rt.Node { return rt.If(rt.In(I(1), rt.Index("a", S("k"), e)), rt.Block()) })},
+		{"in-right-slice", one(func(e *rt.Node) *rt.Node { return rt.Assign("=", Id("x"), rt.In(I(1), rt.Slice(Id("l"), I(1), e, nil, false))) })},
+		{"in-right-paren", one(func(e *rt.Node) *rt.Node { return rt.Assign("=", Id("x"), rt.In(S("a"), rt.Paren(e))) })},
+		{"in-right-arith", one(func(e *rt.Node) *rt.Node { return rt.Assign("=", Id("x"), rt.In(S("a"), rt.Paren(rt.Bin("+", S("ab"), e)))) })},
+		{"in-right-list-index", one(func(e *rt.Node) *rt.Node { return rt.Assign("=", Id("x"), rt.In(I(1), rt.List(I(1), rt.Index("a", e)))) })},
+		{"forin-iter-index", one(func(e *rt.Node) *rt.Node { return rt.ForIn("v", rt.Index("a", e), rt.Block()) })},
+		{"forin-iter-slice", one(func(e *rt.Node) *rt.Node { return rt.ForIn("v", rt.Slice(Id("l"), nil, nil, e, true), rt.Block()) })},
+		{"forin-iter-list-elem-arith", one(func(e *rt.Node) *rt.Node { return rt.ForIn("v", rt.List(rt.Bin("+", I(1), e)), rt.Block()) })},
 		{"paren", one(func(e *rt.Node) *rt.Node { return rt.Assign("=", Id("x"), rt.Paren(rt.Paren(e))) })},
 		{"slice-object", one(func(e *rt.Node) *rt.Node { return rt.Assign("=", Id("x"), rt.Slice(e, I(0), I(1), nil, false)) })},
 		{"deep-block", one(func(e *rt.Node) *rt.Node {
